@@ -37,6 +37,9 @@ pub fn check(tier: Tier) -> Check {
     // persistent back-pressure on the write half (WriteBlock / WriteUnblock events)
     parts.push(Part::new("C06/interleave", json!({"depth": tier.pick(4, 5), "r": 2, "wb": true}), 1, tier.pick(30, 400)));
     parts.push(Part::new("C06/interleave", json!({"depth": tier.pick(3, 4), "wb": true}), 2, tier.pick(30, 400)));
+    // publishes issued one after the other on ONE handle object (and on clones of it), some refused
+    parts.push(Part::new("C06/interleave", json!({"depth": tier.pick(5, 6), "r": 1, "worker": true}), 0, tier.pick(30, 400)));
+    parts.push(Part::new("C06/interleave", json!({"depth": tier.pick(4, 5), "r": 2, "m": 12, "worker": true}), 1, tier.pick(30, 400)));
     // identifier flavour: the counters start next to a boundary of their encodings (DESIGN 4)
     parts.push(Part::new("C06/interleave", json!({"depth": tier.pick(5, 6), "r": 2, "ids": [65534, 1]}), 1, tier.pick(30, 400)));
     parts.push(Part::new("C06/interleave", json!({"depth": tier.pick(5, 6), "ids": [255, 1]}), 0, tier.pick(30, 400)));
@@ -73,7 +76,11 @@ pub fn scenario(name: &str, params: &Value) -> Scenario {
     Box::new(move |chz, ex| {
         let mut sys = Sys::new("C06", &name, chz);
         sys.params = params.clone();
-        sys.bring_up_fl(if r == 0 { vec![] } else { receive_max(r) }, params["flavour"].as_u64().unwrap_or(0));
+        let mut cprops = if r == 0 { vec![] } else { receive_max(r) };
+        if let Some(m) = params["m"].as_u64() {
+            cprops.push(pvcore::refcodec::Prop::u32(pvcore::refcodec::P_MAXIMUM_PACKET_SIZE, m as u32));
+        }
+        sys.bring_up_fl(cprops, params["flavour"].as_u64().unwrap_or(0));
         if all_reasons {
             sys.set_write_mode(WriteMode::Explore);
         }
@@ -137,7 +144,17 @@ pub fn scenario(name: &str, params: &Value) -> Scenario {
                     .filter(|&&i| matches!(s.m.ops[i].spec, OpSpec::Publish(_)))
                     .count();
                 if pubs < 2 {
-                    e.extend(specs.iter().cloned().map(Ev::Start));
+                    for sp in specs.iter().cloned() {
+                        if s.params["worker"].as_bool().unwrap_or(false) && s.m.worker_busy.is_none() {
+                            // one long-lived handle object used for one publish after the other (what a
+                            // handle keeps between calls - a scratch buffer, say - must not leak into
+                            // the next packet), and clones taken from it
+                            e.push(Ev::StartW(sp.clone()));
+                            e.push(Ev::StartWC(sp));
+                        } else {
+                            e.push(Ev::Start(sp));
+                        }
+                    }
                 }
                 if s.m.pings.is_empty() && s.m.ops.len() < 4 {
                     e.push(Ev::Start(OpSpec::Ping));
